@@ -1118,3 +1118,57 @@ Proof.
   apply (chunk_roundtrip_gen Consts.LYB_SIZE_MAX Consts.LYB_SIZE_BYTES Consts.LYB_INCHUNK_MAX
            Consts.LYB_INCHUNK_BYTES Consts.LYB_META_BYTES consts_max_pos consts_mask consts_fit consts_meta).
 Qed.
+
+(* ------------------------------------------------------------------------------------------ *)
+(* examples: the hypotheses of the round trip are met by non-trivial scripts                    *)
+(* ------------------------------------------------------------------------------------------ *)
+(* constants of lyb.h: nested siblings, the bytes are checked literally *)
+Example chunk_example :
+  let script := [Start; Write [1; 2; 3]; Start; Write [4]; Stop; Start; Stop; Write [5; 6]; Stop] in
+  well_bracketed script = true /\
+  match lyb_run_write script with
+  | Ok st => w_out st = [6; 0; 2; 0;  1; 2; 3;  1; 0; 0; 0;  4;  0; 0; 0; 0;  5; 6]
+  | Err _ => False
+  end.
+Proof. split; vm_compute; reflexivity. Qed.
+
+(* LYB_SIZE_MAX = 7 (same code, small constant): a 20-byte payload inside two nested siblings goes through three
+   chunks on both levels; the meta bytes of the outer level are in the middle of the inner data *)
+Example chunk_example_multi :
+  let script := [Start; Write [9]; Start; Write (pattern 20); Stop; Write [8]; Stop] in
+  well_bracketed script = true /\
+  match lyb_run_write_small 7 script with
+  | Ok st => lyb_run_read_small 7 (shape script) (w_out st) = Ok (payloads script, mk_r [] []) /\
+             length (w_out st) = 50%nat
+  | Err _ => False
+  end.
+Proof. split; [reflexivity|]. vm_compute. split; reflexivity. Qed.
+
+(* ------------------------------------------------------------------------------------------ *)
+(* inner_chunks: the bound "inner_chunks <= written + 1" of the plan does not hold               *)
+(* ------------------------------------------------------------------------------------------ *)
+(* LYB_SIZE_MAX = 3: every nested start is preceded by a payload byte, yet the outermost level ends with
+   written = 2 and inner_chunks = 4: a level that was opened in the previous chunk of its parent is closed
+   (one increment) by the very byte that also pays for the next start (another increment) *)
+Theorem inner_le_written_refuted_small :
+  exists script st s,
+    disciplined 1 script 0 0 = true /\ lyb_run_write_small 3 script = Ok st /\
+    In s (w_sibs st) /\ written s + 1 < inner_chunks s.
+Proof.
+  exists [Start; Write [1]; Start; Write [2]; Start; Write [3]; Write [4]; Start; Write [5]; Start].
+  eexists. exists (mk_sib 2 15 4). split; [reflexivity|]. split; [vm_compute; reflexivity|].
+  split; [|reflexivity]. cbn [w_sibs]. do 4 right. left. reflexivity.
+Qed.
+
+(* LYB_SIZE_MAX = LYB_INCHUNK_MAX = 3 (they are equal in lyb.h, too): one payload byte before every nested start
+   and nesting depth 3 do not keep lyb_write_start_siblings() from failing with LOGINT. With the constants of
+   lyb.h the same shape of script (65534 rounds of W,S,E) makes the C function fail (checked with impl/t_lyb.c);
+   two bytes before every start, which is what lyb_print_node() writes at least, do not. *)
+Theorem logint_reachable_small :
+  exists script,
+    disciplined 1 script 0 0 = true /\ well_bracketed script = false /\ max_depth script 0 = 3%nat /\
+    run_write 3 2 3 2 4 script = Err E_LOGINT.
+Proof.
+  exists [Start; Write [1]; Start; Write [2]; Write [3]; Start; Stop; Write [4]; Start; Stop; Write [5]; Start].
+  repeat split; vm_compute; reflexivity.
+Qed.
